@@ -126,10 +126,11 @@ class StallFamilyL2(ScenarioFamily):
     time when an operation stalls: matching exception class at exactly start + value."""
 
     chunk = 30
+    ex = "asyncio"
 
     def generate(self, seed, index, tier):
         r = gen.mk_rng(seed, "c16stall")
-        scn = base_scenario(seed, (index % 11), "asyncio")   # company "alone"
+        scn = base_scenario(seed, (index % 11), self.ex)   # company "alone"
         scn["seam"] = "L2"
         scn["log_sites"] = True
         scn["epilogue"] = ["close_pool"]
@@ -173,6 +174,12 @@ class StallFamilyL2(ScenarioFamily):
 
     def nontrivial(self, res, scn):
         return bool(res.world.fault_sites)
+
+
+class StallFamilyTrioL2(StallFamilyL2):
+    """The same under trio: the real TrioBackend's trio.fail_after()."""
+
+    ex = "trio"
 
 
 def _which(got, d):
@@ -290,4 +297,5 @@ register("C16", {
     PoolDeadlineFamily("pool-deadline-threads", "threads", 500, 10000),
     PoolDeadlineFamily("pool-deadline-trio", "trio", 800, 15000),
     ArgsFamily("timeout-args-threads-L2", "threads", 400, 8000, seam="L2"),
-    StallFamilyL2("C16", "stalled-ops-async-L2", 800, 15000)])
+    StallFamilyL2("C16", "stalled-ops-async-L2", 800, 15000),
+    StallFamilyTrioL2("C16", "stalled-ops-trio-L2", 500, 10000)])
